@@ -317,6 +317,56 @@ def run(ctx):
     ctx.ob("R11.15", "parse_identifier vs skip_identifier", not bad15, site=A.where(fpi), detail={"mismatches": bad15[:6]},
            what="the scanner's identifier parser and the checker's disagree on %s: the checker counts one value where the scanner stops in the middle of the word" % bad15[:3])
 
+    # ---- R11.16: every step over an ellipsis has the ellipsis' length
+    ctx.rule("R11.16", "ELLIPSIS-STEP: where a cursor known to stand on an ellipsis (compared with or searched for the literal `...`) is moved on by a constant and then "
+                       "by `while(isspace(*++p))`, constant plus the pre-increment make exactly the three characters of the ellipsis - in the checker (right-hand side, end of the previous range) as in the scanner; "
+                       "one more swallows the first character of a value written tight against the dots")
+    n16 = 0
+    for q16, fns16 in sorted(u.functions.items()):
+        for fn16 in fns16:
+            if u.body(fn16) is None or not (A.loc(fn16)[0] or "").endswith(UNIT):
+                continue
+            for wl in A.walk(u.body(fn16)):
+                if wl.get("kind") != "WhileStmt":
+                    continue
+                cnd = A.strip_casts(A.kids(wl)[0])
+                incs = [y for y in A.walk(cnd) if y.get("kind") == "UnaryOperator" and y.get("opcode") == "++" and not y.get("isPostfix")]
+                if len(incs) != 1 or not any(A.callee_name(c_) in ("isspace", "__ctype_b_loc") for c_ in A.calls_in(cnd)):
+                    continue
+                if any(y.get("kind") not in ("NullStmt", "CompoundStmt") for y in A.walk(A.kids(wl)[1])):
+                    continue
+                pid = A.ref_id(A.kids(incs[0])[0])
+                par = u.parent.get(wl.get("id"))
+                if pid is None or par is None or par.get("kind") != "CompoundStmt":
+                    continue
+                sibs = A.kids(par)
+                k16 = next(i_ for i_, s_ in enumerate(sibs) if s_ is wl)
+                if k16 == 0:
+                    continue
+                prev = A.strip_casts(sibs[k16 - 1])
+                base, step = None, None
+                if prev.get("kind") == "CompoundAssignOperator" and prev.get("opcode") == "+=" and A.ref_id(A.kids(prev)[0]) == pid:
+                    base, step = ("self", pid), A.int_literal(A.kids(prev)[1])
+                elif prev.get("kind") == "BinaryOperator" and prev.get("opcode") == "=" and A.ref_id(A.kids(prev)[0]) == pid:
+                    rhs = A.strip_casts(A.kids(prev)[1])
+                    if rhs.get("kind") == "BinaryOperator" and rhs.get("opcode") == "+" and A.ref_id(A.kids(rhs)[0]) is not None:
+                        base, step = ("var", A.ref_id(A.kids(rhs)[0])), A.int_literal(A.kids(rhs)[1])
+                elif prev.get("kind") == "DeclStmt":
+                    for d_ in A.kids(prev):
+                        if d_.get("kind") == "VarDecl" and d_.get("id") == pid and A.kids(d_):
+                            rhs = A.strip_casts(A.kids(d_)[-1])
+                            if rhs.get("kind") == "BinaryOperator" and rhs.get("opcode") == "+" and A.ref_id(A.kids(rhs)[0]) is not None:
+                                base, step = ("var", A.ref_id(A.kids(rhs)[0])), A.int_literal(A.kids(rhs)[1])
+                if base is None or step is None:
+                    continue
+                if not _stands_on_ellipsis(u, prev, base[1], 0):
+                    continue
+                n16 += 1
+                ctx.ob("R11.16", "%s: step over the ellipsis@%s" % (q16, A.loc(wl)[1]), step + 1 == 3, site=A.where(prev), detail={"constant": step, "then": A.src(cnd)},
+                       key="R11.16:%s:%d" % (q16, n16),
+                       what="%s moves the cursor %d+1 characters past the start of an ellipsis (`%s; %s`): the ellipsis has three" % (q16, step, A.src(prev), A.src(wl)[:40]))
+    ctx.require(n16 >= 1, "R11.16: no step over an ellipsis found")
+
     # ---- R11.14: the checker's choice of the left neighbour tells arrays apart (sibling of R11.12)
     ctx.rule("R11.14", "LOOKBEHIND-KINDS (checker): where the checker looks for the value a range counts on from - the text of the previous argument - it sets an array apart (its first character '[' or its type 'a'); an ellipsis inside the array is not the end of a preceding range, and the scanner (R11.12) does not count on from an array")
     chk14 = u.function("rtosc_skip_next_printed_arg")
@@ -610,4 +660,65 @@ def _inside(root, node):
     for x in A.walk(root):
         if x.get("id") == nid:
             return True
+    return False
+
+
+def _stands_on_ellipsis(u, at, var_id, depth):
+    """the variable, at statement `at`, is known to point at the literal `...`: it is the result of strstr(_, "..."), or a
+    condition enclosing `at` compares it with that literal (strncmp / strstr), or it is a plain copy of such a variable"""
+    def is_dots(e):
+        return (A.string_literal(A.strip_casts(e)) or A.string_literal(e)) == "..."
+    if depth > 4:
+        return False
+    # an enclosing condition that mentions the variable together with the literal
+    for a in u.ancestors(at):
+        if a.get("kind") == "IfStmt":
+            for c in A.calls_in(A.kids(a)[0]):
+                if A.callee_name(c) in ("strncmp", "strstr", "memcmp", "strcmp") and any(is_dots(x) for x in A.kids(c)[1:]) and \
+                        any(A.ref_id(x) == var_id for x in A.kids(c)[1:]):
+                    return True
+        if a.get("kind") in ("FunctionDecl", "CXXMethodDecl"):
+            fn = a
+            break
+    else:
+        return False
+    # its defining expressions: initialiser and assignments textually before `at`
+    d = u.by_id.get(var_id)
+    if d is not None and d.get("kind") == "ParmVarDecl" and fn.get("storageClass") == "static":
+        # the parameter of a file-local helper: every call hands over a cursor that stands on an ellipsis
+        ids_ = [p_["id"] for p_ in u.params(fn)]
+        if var_id not in ids_:
+            return False
+        k_ = ids_.index(var_id)
+        sites = [c for q_, fl_ in u.functions.items() for g in fl_ if u.body(g) is not None and g is not fn for c in A.calls_in(u.body(g), fn.get("name"))]
+        if not sites:
+            return False
+        for c in sites:
+            a_ = A.strip_casts(A.kids(c)[1 + k_]) if len(A.kids(c)) > 1 + k_ else {}
+            # the statement the call stands in
+            st_ = c
+            for anc in u.ancestors(c):
+                if anc.get("kind") == "CompoundStmt":
+                    break
+                st_ = anc
+            if a_.get("kind") != "DeclRefExpr" or not _stands_on_ellipsis(u, st_, A.ref_id(a_), depth + 1):
+                return False
+        return True
+    defs = []
+    if d is not None and d.get("kind") == "VarDecl" and A.kids(d):
+        defs.append((d, A.kids(d)[-1]))
+    pos_at = (A.loc(at)[1] or 0, A.loc(at)[2] if len(A.loc(at)) > 2 else 0)
+    for y in A.walk(u.body(fn)):
+        if y.get("kind") == "BinaryOperator" and y.get("opcode") == "=" and A.ref_id(A.kids(y)[0]) == var_id and y is not at and (A.loc(y)[1] or 0) <= pos_at[0]:
+            defs.append((y, A.kids(y)[1]))
+    # the nearest one before `at`
+    defs = [x for x in defs if (A.loc(x[0])[1] or 0) <= pos_at[0]]
+    if not defs:
+        return False
+    node, e = max(defs, key=lambda x: A.loc(x[0])[1] or 0)
+    e = A.strip_casts(e)
+    if e.get("kind") == "CallExpr" and A.callee_name(e) == "strstr" and any(is_dots(x) for x in A.kids(e)[1:]):
+        return True
+    if e.get("kind") == "DeclRefExpr":
+        return _stands_on_ellipsis(u, node, A.ref_id(e), depth + 1)
     return False
